@@ -18,6 +18,7 @@ ASSUMPTIONS = ["os.replace is atomic on one file system", "python is not run wit
 def run(project, rep):
     rep.run(K.k_rules, project, rep)
     rep.run(K.k_r5_every_call_asks_the_server, project, rep)
+    rep.run(K.k_r6_stored_reply_carries_a_profile, project, rep)
     from .. import rules_wire as W
     rep.rule("K-R5", "the date asked with is the date held: DTPROFUP is written by format_datetime as date.mmm[offset] with the milliseconds zero-padded on the left (L-R3)")
     rep.run(W.l_r3_datetime, project, rep)
@@ -29,4 +30,4 @@ def run(project, rep):
     from .. import rules_parser as P
     rep.rule("K-R7", "malformed data fails the call before the cache is touched: a response cut short is refused by the parser - the builder never supplies end tags the data did not contain (P-R10), so a truncated profile cannot be cached as if complete")
     rep.run(P.p_r10_no_invented_end, project, rep)
-    rep.run_only(("P-R1",), P.p_rules, project, rep, constructs=("TreeBuilder.end:",))
+    rep.run_only(("P-R1",), P.p_rules, project, rep, constructs=("TreeBuilder.end:", "TreeBuilder:open-tags-per-instance"))
